@@ -45,6 +45,16 @@ type c03Case struct {
 	Big       bool   `json:"big_writes"` // every caller mostly issues multi-chunk writes of 3·MaxPacket bytes
 	WrapID    bool   `json:"wrap_id"`    // start the id counter just below 2^32
 
+	// client options beyond MaxPacket / UseConcurrentWrites ("" / 0 = the option is not passed at all)
+	MPOpt  string `json:"max_packet_option,omitempty"`     // "" MaxPacketUnchecked | checked (MaxPacketChecked) | alias (MaxPacket)
+	MaxReq int    `json:"max_requests_per_file,omitempty"` // MaxConcurrentRequestsPerFile: 1 | 2 | 0 = default 64
+	Reads  string `json:"concurrent_reads,omitempty"`      // UseConcurrentReads: off | on | "" = default on
+	Fstat  string `json:"use_fstat,omitempty"`             // UseFstat: on | off | "" = default off
+	// Xfer: the callers also run File.WriteTo, File.ReadFrom (readers with Len / Size / Stat / *io.LimitedReader /
+	// none of them) and File.ReadFromWithConcurrency, on fresh Files and on the Files all callers share (those
+	// hold the File's exclusive lock while other callers' ReadAt / WriteAt / Stat on the same File wait)
+	Xfer bool `json:"transfers,omitempty"`
+
 	// family "ctx" (cli_c03ctx.go): a ReadDirContext is cancelled with a request outstanding, answered late
 	Kind   string `json:"kind,omitempty"`   // "" (permuting peer) | "ctx"
 	Hold   string `json:"hold,omitempty"`   // opendir | first | second (READDIR) | any
@@ -64,6 +74,7 @@ type c03Res struct {
 	MaxOut     int            `json:"max_outstanding"`
 	OpHist     map[string]int `json:"ops"`
 	Wrapped    bool           `json:"wrapped"`
+	Speculative int           `json:"speculative_reads,omitempty"` // READs of a concurrent WriteTo beyond the chunk that reported EOF
 	Trace      []string       `json:"trace,omitempty"`
 	Conn       *connLine      `json:"conn,omitempty"` // the recorded schedule as conn.run tokens + observed outcomes
 	Fails      []c20Fail      `json:"fails,omitempty"`
@@ -116,6 +127,94 @@ func c03Num(s string) uint64 {
 	return n
 }
 
+// c03Opts builds the client options of a run.
+func c03Opts(cs c03Case) []sftp.ClientOption {
+	var opts []sftp.ClientOption
+	switch cs.MPOpt {
+	case "checked":
+		opts = append(opts, sftp.MaxPacketChecked(cs.MaxPacket))
+	case "alias":
+		opts = append(opts, sftp.MaxPacket(cs.MaxPacket))
+	default:
+		opts = append(opts, sftp.MaxPacketUnchecked(cs.MaxPacket))
+	}
+	if cs.ConcW {
+		opts = append(opts, sftp.UseConcurrentWrites(true))
+	}
+	switch cs.Reads {
+	case "off":
+		opts = append(opts, sftp.UseConcurrentReads(false))
+	case "on":
+		opts = append(opts, sftp.UseConcurrentReads(true))
+	}
+	switch cs.Fstat {
+	case "on":
+		opts = append(opts, sftp.UseFstat(true))
+	case "off":
+		opts = append(opts, sftp.UseFstat(false))
+	}
+	if cs.MaxReq > 0 {
+		opts = append(opts, sftp.MaxConcurrentRequestsPerFile(cs.MaxReq))
+	}
+	return opts
+}
+
+// Transfer files: a path "xfer_…_s<N>" names a regular file of N bytes (STAT, FSTAT and READ agree on N; READ
+// honours the end of the file), whose content is the pattern of its handle.
+func c03IsXfer(s string) bool { return strings.HasPrefix(s, "xfer_") || strings.HasPrefix(s, "h:xfer_") }
+
+func c03XferSize(s string) uint64 {
+	i := strings.LastIndex(s, "_s")
+	if i < 0 {
+		return 0
+	}
+	return c03Num(s[i+2:])
+}
+
+// c03WriteToReads lists the READ requests File.WriteTo issues for a file of `size` bytes from offset o with
+// chunk size mp: the ones it must issue (canonical texts) and, on the concurrent path, the offset from which
+// further speculative reads (every mp bytes, mp long) may or may not have been sent when it returns (-1: none).
+func c03WriteToReads(h string, o, size uint64, mp int, sequential bool) (required []string, optFrom int64) {
+	m := uint64(mp)
+	rd := func(off uint64, n uint64) { required = append(required, fmt.Sprintf("read %s %d %d", h, off, n)) }
+	if sequential {
+		// readChunkAt fills a buffer of mp bytes: a short DATA is followed by a READ for the rest, answered EOF
+		for pos := o; ; pos += m {
+			rd(pos, m)
+			if pos >= size {
+				return required, -1
+			}
+			if l := min(m, size-pos); l < m {
+				rd(pos+l, m-l)
+				return required, -1
+			}
+		}
+	}
+	pos := o
+	for ; pos < size; pos += m {
+		rd(pos, m)
+	}
+	rd(pos, m) // the chunk that is answered EOF ends the transfer
+	return required, int64(pos + m)
+}
+
+// c03OptTail is a set of READ requests that may appear on the wire without having been "issued" by a caller's
+// bookkeeping: the speculative tail of a concurrent WriteTo.
+type c03OptTail struct {
+	H    string
+	From int64
+	MP   int
+}
+
+func (t c03OptTail) matches(canon string) bool {
+	var h string
+	var off, n int64
+	if k, _ := fmt.Sscanf(canon, "read %s %d %d", &h, &off, &n); k != 3 {
+		return false
+	}
+	return h == t.H && n == int64(t.MP) && off >= t.From && (off-t.From)%int64(t.MP) == 0
+}
+
 // c03Server builds replies from request content only.
 type c03Server struct {
 	mu       sync.Mutex
@@ -135,10 +234,16 @@ func (s *c03Server) reply(q cliReq) []byte {
 		if strings.HasPrefix(q.Path, "missing") {
 			return wire.StatusFrame(id, wire.NoSuchFile, "no "+q.Path)
 		}
+		if c03IsXfer(q.Path) {
+			return wire.AttrsFrame(id, wire.St{Flags: wire.ASize | wire.APerm, Size: c03XferSize(q.Path), Perm: 0o100644})
+		}
 		return wire.AttrsFrame(id, wire.St{Flags: wire.ASize | wire.APerm, Size: c03Num(q.Path), Perm: 0o100644})
 	case wire.Lstat:
 		return wire.AttrsFrame(id, wire.St{Flags: wire.ASize | wire.APerm, Size: c03Num(q.Path) + 7, Perm: 0o120777})
 	case wire.Fstat:
+		if c03IsXfer(q.Handle) {
+			return wire.AttrsFrame(id, wire.St{Flags: wire.ASize | wire.APerm, Size: c03XferSize(q.Handle), Perm: 0o100600})
+		}
 		return wire.AttrsFrame(id, wire.St{Flags: wire.ASize | wire.APerm, Size: c03Num(q.Handle) + 1000, Perm: 0o100600})
 	case wire.Readlink:
 		return wire.NameFrame(id, []wire.NameEnt{{Name: "t" + q.Path[1:], Long: "x"}})
@@ -164,6 +269,13 @@ func (s *c03Server) reply(q cliReq) []byte {
 		}
 		return wire.StatusFrame(id, wire.EOF, "EOF")
 	case wire.Read:
+		if c03IsXfer(q.Handle) {
+			size := c03XferSize(q.Handle)
+			if q.Off >= size {
+				return wire.StatusFrame(id, wire.EOF, "EOF")
+			}
+			return wire.DataFrame(id, cliPatternBytes(q.Handle, q.Off, int(min(uint64(q.Len), size-q.Off))))
+		}
 		return wire.DataFrame(id, cliPatternBytes(q.Handle, q.Off, int(q.Len)))
 	case wire.Write:
 		if !bytes.Equal(q.Data, cliPatternBytes(q.Handle, q.Off, len(q.Data))) {
@@ -191,11 +303,7 @@ func c03Run(cs c03Case) (res c03Res) {
 		res.Fails = append(res.Fails, c20Fail{key, what, act})
 		fmu.Unlock()
 	}
-	opts := []sftp.ClientOption{sftp.MaxPacketUnchecked(cs.MaxPacket)}
-	if cs.ConcW {
-		opts = append(opts, sftp.UseConcurrentWrites(true))
-	}
-	client, peer, err := peers.NewClient(cliVersion(), opts...)
+	client, peer, err := peers.NewClient(cliVersion(), c03Opts(cs)...)
 	if err != nil {
 		fail("tie/new-client", err.Error(), nil)
 		return
@@ -385,11 +493,21 @@ func c03Run(cs c03Case) (res c03Res) {
 		issued = append(issued, s...)
 		issuedMu.Unlock()
 	}
-	var shared *sftp.File
+	var shared, xsh *sftp.File
+	var smu, xmu sync.Mutex // Seek+transfer on a shared File is one step of ONE caller (the offset is the File's)
+	var optTails []c03OptTail
+	mp := cs.MaxPacket
+	xrng := rand.New(rand.NewSource(cs.Seed ^ 0x3c6ef372)) // (prng belongs to the peer goroutine)
+	xshSize := uint64(mp*(2+xrng.Intn(5)) + xrng.Intn(mp))
+	xshPath := fmt.Sprintf("xfer_sh_s%d", xshSize)
 	own := make([]*sftp.File, cs.Callers)
 	if !within("Open", func() {
 		shared, err = client.OpenFile("shared", os.O_RDWR)
 		issue(fmt.Sprintf("open shared %d", wire.FRead|wire.FWrite))
+		if cs.Xfer && err == nil {
+			xsh, err = client.OpenFile(xshPath, os.O_RDWR)
+			issue(fmt.Sprintf("open %s %d", xshPath, wire.FRead|wire.FWrite))
+		}
 		for c := 0; c < cs.Callers && err == nil; c++ {
 			own[c], err = client.OpenFile(fmt.Sprintf("own%d", c), os.O_RDWR)
 			issue(fmt.Sprintf("open own%d %d", c, wire.FRead|wire.FWrite))
@@ -401,7 +519,6 @@ func c03Run(cs c03Case) (res c03Res) {
 	}
 
 	// ---- the callers ----
-	mp := cs.MaxPacket
 	chunks := func(handle string, kind string, off uint64, n int) []string {
 		var out []string
 		for done := 0; done < n; done += mp {
@@ -425,6 +542,10 @@ func c03Run(cs c03Case) (res c03Res) {
 				k := uint64(c*100000 + i + 1)
 				kinds := []string{"stat", "stat-missing", "lstat", "readlink", "realpath", "mkdir", "rename", "readdir", "statvfs", "open-close", "fstat-own",
 					"readat-shared", "readat-own", "readat-shared-multi", "writeat-shared", "writeat-own", "writeat-shared-multi", "write-read-own"}
+				if cs.Xfer {
+					kinds = append(kinds, "writeto-fresh", "writeto-xsh", "readfrom-fresh", "readfrom-shared", "readfromconc-fresh", "readfromconc-shared",
+						"readat-xsh", "writeat-xsh", "fstat-xsh", "fstat-shared")
+				}
 				kind := kinds[rng.Intn(len(kinds))]
 				if cs.Big && rng.Intn(4) != 0 {
 					kind = "writeat-shared-multi"
@@ -538,6 +659,144 @@ func c03Run(cs c03Case) (res c03Res) {
 						issue(chunks(h, "write", off, n)...)
 						opErr = err
 						got, want = fmt.Sprint(m), fmt.Sprint(n)
+					case "fstat-shared", "fstat-xsh":
+						f, h, size := shared, "h:shared", uint64(1000)
+						if kind == "fstat-xsh" {
+							f, h, size = xsh, "h:"+xshPath, xshSize
+						}
+						fi, err := f.Stat()
+						issue(fmt.Sprintf("t%d %s", wire.Fstat, h))
+						if opErr = err; err == nil {
+							got = fmt.Sprint(fi.Size())
+						}
+						want = fmt.Sprint(size)
+					case "readat-xsh":
+						h := "h:" + xshPath
+						n := 1 + rng.Intn(int(min(uint64(3*mp), xshSize)))
+						o := uint64(rng.Int63n(int64(xshSize) - int64(n) + 1))
+						b := make([]byte, n)
+						m, err := xsh.ReadAt(b, int64(o))
+						issue(chunks(h, "read", o, n)...)
+						opErr = err
+						if m != n {
+							got, want = fmt.Sprintf("n=%d", m), fmt.Sprintf("n=%d", n)
+						} else if !bytes.Equal(b, cliPatternBytes(h, o, n)) {
+							got, want = "data of another request", "the pattern of this handle and offset"
+						}
+					case "writeat-xsh":
+						h := "h:" + xshPath
+						n := 1 + rng.Intn(3*mp)
+						m, err := xsh.WriteAt(cliPatternBytes(h, off, n), int64(off))
+						issue(chunks(h, "write", off, n)...)
+						opErr = err
+						got, want = fmt.Sprint(m), fmt.Sprint(n)
+					case "writeto-fresh", "writeto-xsh":
+						// File.WriteTo from offset o to the end of a file of `size` bytes
+						var f *sftp.File
+						var path string
+						var o, size uint64
+						if kind == "writeto-xsh" {
+							f, path, size = xsh, xshPath, xshSize
+							o = []uint64{0, uint64(rng.Int63n(int64(size))), uint64(mp * rng.Intn(int(size)/mp+1)), size, size + uint64(mp) + 3}[rng.Intn(5)]
+							xmu.Lock()
+							defer xmu.Unlock()
+							if _, opErr = f.Seek(int64(o), io.SeekStart); opErr != nil {
+								return
+							}
+						} else {
+							size = []uint64{0, 1, uint64(mp) - 1, uint64(mp), uint64(mp) + 1, uint64(3 * mp), uint64(3*mp + 1), uint64(mp*(1+rng.Intn(8)) + rng.Intn(mp))}[rng.Intn(8)]
+							path = fmt.Sprintf("xfer_k%d_s%d", k, size)
+							var err error
+							f, err = client.Open(path)
+							issue(fmt.Sprintf("open %s %d", path, wire.FRead))
+							if opErr = err; err != nil {
+								return
+							}
+						}
+						h := "h:" + path
+						var sink cliSink
+						n, err := f.WriteTo(&sink)
+						sequential := cs.Reads == "off" || size <= uint64(mp)
+						if cs.Reads != "off" {
+							if cs.Fstat == "on" {
+								issue(fmt.Sprintf("t%d %s", wire.Fstat, h))
+							} else {
+								issue(fmt.Sprintf("t%d %s", wire.Stat, path))
+							}
+						}
+						reads, optFrom := c03WriteToReads(h, o, size, mp, sequential)
+						issue(reads...)
+						if optFrom >= 0 {
+							issuedMu.Lock()
+							optTails = append(optTails, c03OptTail{h, optFrom, mp})
+							issuedMu.Unlock()
+						}
+						opErr = err
+						wantN := uint64(0)
+						if o < size {
+							wantN = size - o
+						}
+						switch {
+						case uint64(n) != wantN || uint64(len(sink.b)) != wantN:
+							got, want = fmt.Sprintf("n=%d, %d bytes written", n, len(sink.b)), fmt.Sprintf("n=%d", wantN)
+						case !bytes.Equal(sink.b, cliPatternBytes(h, o, int(wantN))):
+							got, want = "data of another request (or chunks out of order)", "the pattern of this handle from the start offset to the end of the file"
+						}
+						if kind == "writeto-fresh" && err == nil {
+							opErr = f.Close()
+							issue(fmt.Sprintf("t%d %s", wire.Close, h))
+						}
+					case "readfrom-fresh", "readfrom-shared", "readfromconc-fresh", "readfromconc-shared":
+						// File.ReadFrom / ReadFromWithConcurrency of n pattern bytes at offset o
+						var f *sftp.File
+						var h string
+						var o uint64
+						n := []int{0, 1, mp - 1, mp, mp + 1, 3 * mp, 3*mp + 1, mp*(1+rng.Intn(8)) + rng.Intn(mp)}[rng.Intn(8)]
+						if strings.HasSuffix(kind, "-shared") {
+							f, h, o = shared, "h:shared", off
+							smu.Lock()
+							defer smu.Unlock()
+							if _, opErr = f.Seek(int64(o), io.SeekStart); opErr != nil {
+								return
+							}
+						} else {
+							path := fmt.Sprintf("xfer_k%d_s0", k)
+							h = "h:" + path
+							var err error
+							f, err = client.Create(path)
+							issue(fmt.Sprintf("open %s %d", path, wire.FRead|wire.FWrite|wire.FCreat|wire.FTrunc))
+							if opErr = err; err != nil {
+								return
+							}
+						}
+						data := cliPatternBytes(h, o, n)
+						var src io.Reader
+						switch rk := rng.Intn(5); rk {
+						case 0:
+							src = bytes.NewReader(data) // Len()
+						case 1:
+							src = cliSized{cliSrc{bytes.NewReader(data)}, int64(n)}
+						case 2:
+							src = &io.LimitedReader{R: cliSrc{bytes.NewReader(append(data, 0xEE, 0xEE, 0xEE))}, N: int64(n)}
+						case 3:
+							src = cliStatted{cliSrc{bytes.NewReader(data)}, int64(n)}
+						default:
+							src = cliSrc{bytes.NewReader(data)}
+						}
+						var m int64
+						var err error
+						if strings.HasPrefix(kind, "readfromconc") {
+							m, err = f.ReadFromWithConcurrency(src, []int{0, 1, 2, 3, 100}[rng.Intn(5)])
+						} else {
+							m, err = f.ReadFrom(src)
+						}
+						issue(chunks(h, "write", o, n)...)
+						opErr = err
+						got, want = fmt.Sprint(m), fmt.Sprint(n)
+						if strings.HasSuffix(kind, "-fresh") && err == nil {
+							opErr = f.Close()
+							issue(fmt.Sprintf("t%d %s", wire.Close, h))
+						}
 					case "write-read-own":
 						// File.Seek+Write+Seek+Read on the caller's own file (offset bookkeeping is C12; routing here)
 						f, h := own[c], fmt.Sprintf("h:own%d", c)
@@ -581,6 +840,10 @@ func c03Run(cs c03Case) (res c03Res) {
 		res.ExitNow = true
 		peer.Shutdown()
 		return
+	}
+	// a concurrent WriteTo may return with speculative READs still on their way; the peer answers them
+	for t0 := time.Now(); cs.Xfer && sftp.VerifInflight(client) != 0 && time.Since(t0) < 5*time.Second; {
+		time.Sleep(200 * time.Microsecond)
 	}
 	if n := sftp.VerifInflight(client); n != 0 {
 		fail("inflight-not-empty", fmt.Sprintf("%d entries remain in clientConn.inflight after every call returned", n), nil)
@@ -626,8 +889,27 @@ func c03Run(cs c03Case) (res c03Res) {
 	b := append([]string(nil), issued...)
 	sort.Strings(a)
 	sort.Strings(b)
-	if !equalStrings(a, b) {
-		onlyWire, onlyIssued := diffMultiset(a, b)
+	onlyWire, onlyIssued := diffMultiset(a, b)
+	if len(optTails) > 0 {
+		// the speculative tail of concurrent WriteTo calls: reads beyond the chunk that reported EOF
+		var rest []string
+		for _, w := range onlyWire {
+			spec := false
+			for _, t := range optTails {
+				if t.matches(w) {
+					spec = true
+					break
+				}
+			}
+			if spec {
+				res.Speculative++
+			} else {
+				rest = append(rest, w)
+			}
+		}
+		onlyWire = rest
+	}
+	if len(onlyWire)+len(onlyIssued) > 0 {
 		fail("framing/requests-differ", "the requests on the wire are not exactly the requests the callers issued", map[string]any{"only_on_wire": head(onlyWire, 8), "only_issued": head(onlyIssued, 8)})
 	}
 	if len(wireCanon) != len(onWire) {
@@ -687,7 +969,7 @@ func head(s []string, n int) []string {
 func checkC03(c *lib.Ctx) {
 	r := c.R
 	thorough := c.Tier == "thorough"
-	r.Rule = "family 1: run = (callers 1…16, reply order perm|reverse|delay|fifo, seed, MaxPacket, concurrent writes on/off, big multi-chunk writes, id counter started just below 2^32): every caller issues a PRNG mix of 18 self-identifying operations (Stat/Lstat/ReadLink/RealPath/Mkdir/Rename/ReadDir/StatVFS/Open+Close/File.Stat/ReadAt and WriteAt single- and multi-chunk on a shared and an own File/Write+Read) on one Client; the peer answers the requests outstanding at a quiescent moment in a PRNG permutation of a PRNG subset, strictly reversed, one at a time with delays, or in order. A run is non-trivial when at least one batch of ≥2 outstanding requests was answered out of arrival order; distinct by run parameters. Family 2 (abandoned request): ReadDirContext is cancelled while its OPENDIR, first READDIR or second READDIR is outstanding (the peer holds it); the deferred CLOSE, 1…6 self-identifying follow-up calls of the same caller and the calls of 0/1/3/8 concurrent callers run; the peer answers the abandoned request late (regular reply or STATUS) before the j-th follow-up reply, j PRNG incl. 0 = before the CLOSE reply, or after all calls completed; three more calls follow; 8 (quick) / 25 (thorough) abandoned requests per run."
+	r.Rule = "family 1: run = (callers 1…16, reply order perm|reverse|delay|fifo, seed, MaxPacket, concurrent writes on/off, big multi-chunk writes, id counter started just below 2^32): every caller issues a PRNG mix of 18 self-identifying operations (Stat/Lstat/ReadLink/RealPath/Mkdir/Rename/ReadDir/StatVFS/Open+Close/File.Stat/ReadAt and WriteAt single- and multi-chunk on a shared and an own File/Write+Read) on one Client; the peer answers the requests outstanding at a quiescent moment in a PRNG permutation of a PRNG subset, strictly reversed, one at a time with delays, or in order. A run is non-trivial when at least one batch of ≥2 outstanding requests was answered out of arrival order; distinct by run parameters. Client options: the 72 combinations of MaxPacket constructor (MaxPacketUnchecked | MaxPacketChecked | the MaxPacket alias) × MaxConcurrentRequestsPerFile (1 | 2 | default) × UseConcurrentReads (not given | false | true) × UseFstat (not given | true | false) are dealt over the runs in rotation. Two runs in three add File transfers to the mix: File.WriteTo (from a PRNG offset to the end of a file of 0, 1, MaxPacket-1/+0/+1, 3·MaxPacket(+1) or PRNG bytes; sequential, or concurrent with its STAT/FSTAT and its speculative reads), File.ReadFrom (readers with Len, Size, Stat, *io.LimitedReader, or none of them) and File.ReadFromWithConcurrency (0, 1, 2, 3, 100) of the same sizes, each on a fresh File and on a File all callers share (the transfer holds the File's exclusive lock while other callers' ReadAt / WriteAt / Stat on the same File wait and must still get their own results); the wire must carry exactly the requests these calls imply (READs of a concurrent WriteTo beyond the chunk that reported EOF are allowed and counted). Family 2 (abandoned request): ReadDirContext is cancelled while its OPENDIR, first READDIR or second READDIR is outstanding (the peer holds it); the deferred CLOSE, 1…6 self-identifying follow-up calls of the same caller and the calls of 0/1/3/8 concurrent callers run; the peer answers the abandoned request late (regular reply or STATUS) before the j-th follow-up reply, j PRNG incl. 0 = before the CLOSE reply, or after all calls completed; three more calls follow; 8 (quick) / 25 (thorough) abandoned requests per run."
 	var cases []c03Case
 	if c.Replay != "" {
 		var one c03Case
@@ -701,21 +983,47 @@ func checkC03(c *lib.Ctx) {
 		if thorough {
 			seeds, ops = 30, 150
 		}
+		// the option product MaxPacket constructor × MaxConcurrentRequestsPerFile × UseConcurrentReads × UseFstat (72 combinations)
+		// is dealt over the runs in rotation (a seed round of 57 runs continues where the previous one stopped, after
+		// a PRNG skip), together with PRNG UseConcurrentWrites: the cost of a tier does not depend on the number of
+		// options; quick takes every combination 3 times, thorough 23 times
+		var combos []c03Case
+		for _, mpo := range []string{"", "checked", "alias"} {
+			for _, mr := range []int{0, 1, 2} {
+				for _, rd := range []string{"", "off", "on"} {
+					for _, fs := range []string{"", "on", "off"} {
+						if rd == "on" && fs == "off" {
+							continue // both restate a default; ("on","") and ("","off") are taken
+						}
+						combos = append(combos, c03Case{MPOpt: mpo, MaxReq: mr, Reads: rd, Fstat: fs})
+					}
+				}
+			}
+		}
+		ci := 0
+		withOpts := func(cs c03Case) c03Case {
+			o := combos[ci%len(combos)]
+			ci++
+			cs.MPOpt, cs.MaxReq, cs.Reads, cs.Fstat = o.MPOpt, o.MaxReq, o.Reads, o.Fstat
+			return cs
+		}
 		for s := 0; s < seeds; s++ {
+			ci += c.Rand.Intn(len(combos))
 			for callers := 1; callers <= 16; callers++ {
 				for _, mode := range []string{"perm", "reverse", "delay", "fifo"} {
 					if mode == "fifo" && (s > 0 || callers%4 != 0) {
 						continue
 					}
 					mps := []int{1 << 15, 1024, 64, 7}
-					cases = append(cases, c03Case{Callers: callers, Mode: mode, Seed: c.Rand.Int63(), Ops: ops, MaxPacket: mps[c.Rand.Intn(len(mps))],
-						ConcW: c.Rand.Intn(2) == 0, WrapID: c.Rand.Intn(3) == 0})
+					// two runs in three include the File transfers (WriteTo / ReadFrom / ReadFromWithConcurrency)
+					cases = append(cases, withOpts(c03Case{Callers: callers, Mode: mode, Seed: c.Rand.Int63(), Ops: ops, MaxPacket: mps[c.Rand.Intn(len(mps))],
+						ConcW: c.Rand.Intn(2) == 0, WrapID: c.Rand.Intn(3) == 0, Xfer: c.Rand.Intn(3) != 0}))
 				}
 			}
 			// 16 (and 2…15) concurrent writers with large WRITE payloads: header and payload are separate writes
 			for _, callers := range []int{16, 8, 3} {
 				for _, mode := range []string{"perm", "reverse", "delay"} {
-					cases = append(cases, c03Case{Callers: callers, Mode: mode, Seed: c.Rand.Int63(), Ops: ops / 4, MaxPacket: 1 << 15, ConcW: true, Big: true, WrapID: s%2 == 1})
+					cases = append(cases, withOpts(c03Case{Callers: callers, Mode: mode, Seed: c.Rand.Int63(), Ops: ops / 4, MaxPacket: 1 << 15, ConcW: true, Big: true, WrapID: s%2 == 1}))
 				}
 			}
 		}
@@ -731,7 +1039,10 @@ func checkC03(c *lib.Ctx) {
 			for _, hold := range []string{"opendir", "first", "second"} {
 				for _, late := range []string{"name", "eof"} {
 					for _, callers := range []int{0, 1, 3, 8} {
-						cases = append(cases, c03Case{Kind: "ctx", Hold: hold, Late: late, Callers: callers, Pos: -1, Rounds: rounds, Seed: c.Rand.Int63(), MaxPacket: 1024, Mode: "ctx"})
+						cs := c03Case{Kind: "ctx", Hold: hold, Late: late, Callers: callers, Pos: -1, Rounds: rounds, Seed: c.Rand.Int63(), MaxPacket: 1024, Mode: "ctx"}
+						cs.MPOpt, cs.MaxReq = []string{"", "checked", "alias"}[c.Rand.Intn(3)], []int{0, 1, 2}[c.Rand.Intn(3)]
+						cs.Reads, cs.Fstat = []string{"", "off", "on"}[c.Rand.Intn(3)], []string{"", "on", "off"}[c.Rand.Intn(3)]
+						cases = append(cases, cs)
 					}
 				}
 			}
@@ -771,7 +1082,7 @@ func checkC03(c *lib.Ctx) {
 		r.Fail(lib.Failure{Kind: "tie", Key: "child-start", What: err.Error()})
 		return
 	}
-	calls, reqs, reordered, wrapped, abandoned := 0, 0, 0, 0, 0
+	calls, reqs, reordered, wrapped, abandoned, specReads := 0, 0, 0, 0, 0, 0
 	var connLines []connLine
 	var connInputs []any
 	connReqs := 0
@@ -817,6 +1128,24 @@ func checkC03(c *lib.Ctx) {
 		}
 		r.Hist(fmt.Sprintf("callers/%02d", cs.Callers))
 		r.Hist("mode/" + cs.Mode)
+		dflt := func(s, d string) string {
+			if s == "" {
+				return d
+			}
+			return s
+		}
+		r.Hist("option/max-packet-constructor/" + dflt(cs.MPOpt, "unchecked"))
+		r.Hist(fmt.Sprintf("option/max-requests-per-file/%s", dflt(fmt.Sprint(cs.MaxReq), "0")))
+		r.Hist("option/concurrent-reads/" + dflt(cs.Reads, "not-given"))
+		r.Hist("option/use-fstat/" + dflt(cs.Fstat, "not-given"))
+		r.Hist(fmt.Sprintf("option/concurrent-writes/%v", cs.ConcW))
+		if cs.Kind != "ctx" {
+			r.Hist(fmt.Sprintf("transfers/%v", cs.Xfer))
+			if cs.Xfer {
+				r.Hist(fmt.Sprintf("transfers/reads=%s,fstat=%s,max-requests=%d", dflt(cs.Reads, "default"), dflt(cs.Fstat, "default"), cs.MaxReq))
+			}
+			specReads += res.Speculative
+		}
 		if cs.Kind == "ctx" {
 			abandoned += res.Reordered
 			for k, v := range res.Batches {
@@ -856,6 +1185,7 @@ func checkC03(c *lib.Ctx) {
 		}
 		r.Sample(map[string]any{"family": "ctx", "trace_head": ctxSample})
 	}
+	r.Note("File transfers: %d speculative READs of concurrent WriteTo calls (beyond the chunk that reported EOF) were on the wire without a caller having to account for them", specReads)
 	r.Note("abandoned-request family: %d requests abandoned by context cancellation and answered late", abandoned)
 	r.Note("%d calls and %d requests in %d runs; %d batches answered out of arrival order; %d runs crossed the id wrap-around 2^32-1 → 0", calls, reqs, len(cases), reordered, wrapped)
 	n := connCompare(c, "c03", connLines, connInputs)
